@@ -83,6 +83,9 @@ type c06Desc struct {
 
 type c06SP struct {
 	Descs []c06Desc `json:"descs"`
+	// NameIDFormats: what the provider's metadata says it prefers (NameIDFormat elements of every role). A preference of the
+	// provider's; the identifier an assertion carries, Format included, is the session's
+	NameIDFormats []string `json:"nameid_formats,omitempty"`
 }
 
 type c06Sess struct {
@@ -209,6 +212,9 @@ func c06Descriptor(i int, m *c06SP) *saml.EntityDescriptor {
 	ed := &saml.EntityDescriptor{EntityID: c06Entity(i)}
 	for _, d := range m.Descs {
 		sd := saml.SPSSODescriptor{SSODescriptor: saml.SSODescriptor{RoleDescriptor: saml.RoleDescriptor{ProtocolSupportEnumeration: "urn:oasis:names:tc:SAML:2.0:protocol"}}}
+		for _, f := range m.NameIDFormats {
+			sd.NameIDFormats = append(sd.NameIDFormats, saml.NameIDFormat(f))
+		}
 		if d.EncKey != "" {
 			use := d.EncKey
 			if use == "unspecified" {
@@ -308,6 +314,10 @@ var c06MarkerRe = regexp.MustCompile(`^zQ([a-z]+)\d+Qz$`)
 
 func c06GenSP(g *Rng, i int) c06SP {
 	m := c06SP{}
+	if g.Bool(0.35) {
+		m.NameIDFormats = [][]string{{"urn:oasis:names:tc:SAML:1.1:nameid-format:emailAddress"}, {"urn:oasis:names:tc:SAML:2.0:nameid-format:persistent", "urn:oasis:names:tc:SAML:1.1:nameid-format:emailAddress"},
+			{"urn:oasis:names:tc:SAML:1.1:nameid-format:unspecified"}, {"urn:oasis:names:tc:SAML:2.0:nameid-format:transient"}}[g.Intn(4)]
+	}
 	nd := 1 + g.PickW(7, 3)
 	locs := c06Locs(i)
 	perm := []int{0, 1, 2, 3, 4, 5, 6, 7, 8}
